@@ -209,6 +209,12 @@ func sessionMayServe(p policy, sc sessionCase, calls []harness.AuthCall, graceOK
 		// session may predate a policy change, or have been admitted at login through another rule
 		// and not have been re-checked yet). Periodic checking implies this latency of up to one
 		// validity TTL, so the model does not demand more: the group rule counts as possibly satisfied.
+		// One case is decided all the same: the upstream also has email rules, the session's email
+		// satisfies none of them, and the groups the session itself records (what the last confirmation
+		// returned) include none of the listed ones. Then nothing the proxy knows admits this user.
+		if len(p.Addrs)+len(p.Doms) > 0 && !ruleAdmits(policy{Addrs: p.Addrs, Doms: p.Doms}, s.Email, nil) && !ruleAdmits(policy{Groups: p.Groups}, "someone@somewhere.invalid", s.Groups) {
+			return false, "the user satisfies none of the upstream's allow rules"
+		}
 		return true, ""
 	}
 	if s.Email == "" && have && ruleAdmits(p, "nobody@nowhere.invalid", facts) {
